@@ -109,16 +109,11 @@ def run_collider(c):
 
 
 def run_mesh(c):
-    m = W12.NW.build(c["spec"])
-    inner = m.collider if hasattr(m, "collider") and not hasattr(m, "_support_function") else m
+    m = W12.NW.build(c["spec"])          # MeshGraph (no Margin)
     res = []
     for d in c["dirs"]:
-        d = np.array(d, dtype=float)
-        if hasattr(inner, "_support_function") and inner is m:
-            idx, p = m._support_function(d)
-            res.append([int(idx), np.asarray(p, dtype=float)])
-        else:
-            res.append([None, np.asarray(m.support_function(d), dtype=float)])
+        idx, p = m._support_function(np.array(d, dtype=float))
+        res.append([int(idx), np.asarray(p, dtype=float)])
     return {"ok": ser(res)}
 
 
